@@ -1906,7 +1906,7 @@ fn gen_all(ctx: &mut Ctx<C17>) {
         for v in ["deg(1\u{7f})", "\"deg(\\e[31m)\"", "deg(世)", "1 + \u{9b}", "rad(x)"] {
             docs.push((format!("f: {v}\n"), Target::Wrap, false, true));
         }
-        let combos = ctx.tier.pick(16u64, 96u64);
+        let combos = ctx.tier.pick(16u64, 240u64);
         let mut idx = 0u64;
         for (d, tg, no_schema, angle) in &docs {
             for j in 0..combos {
@@ -1944,7 +1944,7 @@ fn gen_all(ctx: &mut Ctx<C17>) {
             &['e', '\u{301}', '😀', 'a', '\u{200d}', 'b', '\u{202e}', 'c', '世', '\t', '\u{a0}'],
         ];
         let radii: [usize; 4] = [1, 2, 3, 5];
-        let maxlen = ctx.tier.pick(10usize, 11usize);
+        let maxlen = ctx.tier.pick(10usize, 11usize); // (the classes have 11 characters)
         let mut idx = 0u64;
         let mut total = 0u64;
         for (ci, cl) in classes.iter().enumerate() {
@@ -2006,7 +2006,7 @@ fn gen_all(ctx: &mut Ctx<C17>) {
     {
         let kinds = [LongKind::IntSeq, LongKind::AliasSeq, LongKind::PlainValue, LongKind::DupFlowMap, LongKind::Unterminated];
         let totals = [10_000usize, 14_000, 20_000, 4_200, 300];
-        let reps = ctx.tier.pick(4u64, 16u64);
+        let reps = ctx.tier.pick(4u64, 40u64);
         let mut idx = 0u64;
         for (ki, kind) in kinds.iter().enumerate() {
             for &total in &totals {
@@ -2059,7 +2059,7 @@ fn gen_all(ctx: &mut Ctx<C17>) {
 
     // --- 4. many lines: reader ring window, first / last line, line numbers >= 10 ------------------------
     {
-        let reps = ctx.tier.pick(8u64, 40u64);
+        let reps = ctx.tier.pick(8u64, 100u64);
         let mut idx = 0u64;
         for &nlines in &[1usize, 2, 3, 5, 9, 12, 100, 400, 1500] {
             for &linelen in &[4usize, 40, 300, 1100] {
@@ -2140,7 +2140,7 @@ fn gen_all(ctx: &mut Ctx<C17>) {
 
     // --- 5. two-window reports (alias used at another place than the anchor) ---------------------------
     {
-        let reps = ctx.tier.pick(4u64, 16u64);
+        let reps = ctx.tier.pick(4u64, 40u64);
         let mut idx = 0u64;
         for lead in [0usize, 1, 3, 7, 9, 12] {
             for gap in [0usize, 1, 2, 3, 4, 5, 8, 20] {
@@ -2205,7 +2205,7 @@ fn gen_all(ctx: &mut Ctx<C17>) {
             },
         );
         let tally = Tally::default();
-        ctx.run_strategy("token-soup", 1, ctx.tier.pick(22_000, 160_000), &strat, |c| classify(c, &tally));
+        ctx.run_strategy("token-soup", 1, ctx.tier.pick(22_000, 400_000), &strat, |c| classify(c, &tally));
         tally.flush(ctx);
 
         // mutated seeds: a reflecting or structured document with a few token-level edits
@@ -2256,7 +2256,7 @@ fn gen_all(ctx: &mut Ctx<C17>) {
                 Case { text, target: *target, entry, opts }
             },
         );
-        ctx.run_strategy("mutated-seeds", 2, ctx.tier.pick(22_000, 160_000), &strat, |c| classify(c, &tally));
+        ctx.run_strategy("mutated-seeds", 2, ctx.tier.pick(22_000, 400_000), &strat, |c| classify(c, &tally));
         tally.flush(ctx);
 
         // random long line: position, length, radius all random (complements the fixed sweep)
@@ -2278,7 +2278,7 @@ fn gen_all(ctx: &mut Ctx<C17>) {
                 let (entry, _) = safe_entry(&text, entry);
                 Case { text, target, entry, opts: opts_with(crop, true) }
             });
-        ctx.run_strategy("long-lines-random", 3, ctx.tier.pick(6_000, 40_000), &strat, |c| classify(c, &tally));
+        ctx.run_strategy("long-lines-random", 3, ctx.tier.pick(6_000, 100_000), &strat, |c| classify(c, &tally));
         tally.flush(ctx);
     }
     NOTE_TALLY.with(|n| n.flush(ctx));
